@@ -109,9 +109,13 @@ pub fn keyset(k: u32, dir: u8) -> (Vec<u8>, Vec<u8>) {
     let salt = (0..14u32).map(|i| (k.wrapping_mul(53) + dir as u32 * 59 + i * 11 + 3) as u8).collect();
     (key, salt)
 }
+/// key ids ≡ 5 (mod 10) stand for unusable key material: `SrtpSession::new` accepts any length, every
+/// `SrtpContext::new` then fails, so every `protect_*` / `unprotect_*` returns `Err`
+pub fn broken(k: u32) -> bool { k % 10 == 5 }
 fn session(k: u32) -> SrtpSession {
-    let (tk, ts) = keyset(k, 0);
-    let (rk, rs) = keyset(k, 1);
+    let (mut tk, ts) = keyset(k, 0);
+    let (mut rk, rs) = keyset(k, 1);
+    if broken(k) { tk.truncate(5); rk.truncate(5); }
     SrtpSession::new(SrtpProfile::Aes128Sha1_80, SrtpKeyingMaterial::new(tk, ts), SrtpKeyingMaterial::new(rk, rs)).unwrap()
 }
 fn ref_ctx(k: u32, dir: u8) -> Context {
@@ -155,14 +159,17 @@ impl RefAuth {
 }
 
 /// key ids a transport `t` may be given: 10t, 10t+1 (so the owner of a protected datagram is key/10)
-pub const KEYS: [u32; 6] = [0, 1, 10, 11, 20, 21];
+pub const KEYS: [u32; 6] = [0, 1, 10, 11, 20, 21]; // usable key sets; 5, 15, 25 are the unusable ones
 pub const NT: usize = 3;
 
 // ---------------------------------------------------------------------------------------------
 // ops
 
 #[derive(Clone, Debug, PartialEq)]
-pub enum Wire { Clear, Garbage, Prot(u32, bool) }
+/// `Prot(key, ok, forgery)`: forgery shape when !ok — 0 last tag byte flipped, 1 tag truncated by 4 bytes,
+/// 2 (RTCP) E bit cleared, 3 another tag bit flipped.  (A REPLAY of an accepted datagram is authentic, hence not
+/// in this set: whether a session accepts it is C05's subject — today rustrtc has no replay window at all.)
+pub enum Wire { Clear, Garbage, Prot(u32, bool, u8) }
 
 #[derive(Clone, Debug, PartialEq)]
 pub enum Op {
@@ -176,6 +183,7 @@ pub enum Op {
     Bridge(usize, usize, Option<usize>),
     ClearBridge(usize),
     Close(usize),
+    Flags(usize, bool, bool, bool),
 }
 impl Op {
     fn kind(&self) -> &'static str {
@@ -183,7 +191,7 @@ impl Op {
             Op::Keys(..) => "install_keys", Op::SendRtp(_) => "send_rtp", Op::SendRaw(..) => "send_raw",
             Op::SendRtcp(_) => "send_rtcp", Op::SyncBye(_) => "send_rtcp_sync", Op::RecvRtp(..) => "recv_rtp",
             Op::RecvRtcp(..) => "recv_rtcp", Op::Bridge(..) => "bridge", Op::ClearBridge(_) => "clear_bridge",
-            Op::Close(_) => "close",
+            Op::Close(_) => "close", Op::Flags(..) => "set_flags",
         }
     }
 }
@@ -270,10 +278,29 @@ fn classify(sys: &mut Sys, b: &[u8]) -> (char, String, Option<u32>) {
     for k in KEYS {
         let ra = sys.auth.entry(k).or_insert_with(|| RefAuth::new(k, 0));
         // authentic under key set k AND the reference implementation decrypts it
-        let ok = if rtcp { ra.rtcp_ok(b) && ref_ctx(k, 0).decrypt_rtcp(b).is_ok() } else { ra.rtp_ok(b) && ref_ctx(k, 0).decrypt_rtp(b).is_ok() };
+        // … AND the reference implementation decrypts it to something DIFFERENT from what is on the wire: an
+        // authenticated datagram whose payload travels in clear (NULL cipher) is not "protected"
+        let ok = if rtcp {
+            ra.rtcp_ok(b) && ref_ctx(k, 0).decrypt_rtcp(b).ok().map(|pt| pt.len() <= 8 || pt[8..] != b[8..pt.len()]).unwrap_or(false)
+        } else {
+            ra.rtp_ok(b) && ref_ctx(k, 0).decrypt_rtp(b).ok().and_then(|pt| RtpPacket::parse(&pt).ok())
+                .map(|p| p.payload.is_empty() || !b[..b.len() - 10].ends_with(&p.payload)).unwrap_or(false)
+        };
         if ok { return (if rtcp { 'c' } else { 'r' }, format!("P{}.{}", k / 10, k), Some(k)); }
     }
     (if rtcp { 'c' } else { 'r' }, "C".into(), None)
+}
+
+/// one of several shapes of an unauthentic "protected" datagram; returns the bytes and the op-line letter
+fn forge(good: &[u8], shape: u8, rtcp: bool, last: Option<&(u32, Vec<u8>, u32)>, k: u32, generation: u32) -> (Vec<u8>, char) {
+    let mut b = good.to_vec();
+    let l = b.len();
+    match shape {
+        1 => { b.truncate(l - 4); (b, 't') }                                   // tag truncated
+        2 if rtcp => { b[l - 14] &= 0x7f; (b, 'e') }                            // SRTCP E bit cleared, tag untouched
+        3 => { let _ = (last, k, generation); b[l - 5] ^= 0x80; (b, 'b') }        // a bit flipped inside the tag / index
+        _ => { b[l - 1] ^= 0x01; (b, 'b') }                                     // last tag byte flipped
+    }
 }
 
 pub struct Outcome { pub events: Vec<String>, pub fails: Vec<(String, String)>, pub unstable: bool }
@@ -282,6 +309,8 @@ pub struct Outcome { pub events: Vec<String>, pub fails: Vec<(String, String)>, 
 pub async fn exec(net: &Net, cfg: &Cfg, ops: &[Op]) -> (Outcome, Vec<String>) {
     let mut sys = build(net, cfg);
     let mut installed: [Option<u32>; NT] = [None; NT]; // harness' own bookkeeping of "the session keys"
+    let mut generation: [u32; NT] = [0; NT];            // how often a session was installed on each transport
+    let mut last_good: HashMap<(usize, bool), (u32, Vec<u8>, u32)> = HashMap::new();
     let mut events = vec![];
     let mut fails: Vec<(String, String)> = vec![];
     let mut unstable = false;
@@ -297,7 +326,17 @@ pub async fn exec(net: &Net, cfg: &Cfg, ops: &[Op]) -> (Outcome, Vec<String>) {
         let mut inj_rtcp: Option<Vec<RtcpPacket>> = None;
         let text;
         match op {
-            Op::Keys(t, k) => { sys.tr[*t].start_srtp(session(*k)); installed[*t] = Some(*k); text = format!("k,{t},{k}"); }
+            Op::Keys(t, k) => { sys.tr[*t].start_srtp(session(*k)); installed[*t] = Some(*k); generation[*t] += 1; text = format!("k,{t},{k}"); }
+            Op::Flags(t, l, r, o) => {
+                // (re-)registration at any moment: everything is cleared, then what is asked for is registered afresh
+                sys.tr[*t].clear_listeners();
+                sys.tr[*t].clear_observers();
+                sys.lis[*t] = None; sys.rl[*t] = None;
+                if *l { let (tx, rx) = mpsc::channel(64); sys.tr[*t].register_provisional_listener(tx); sys.lis[*t] = Some(rx); }
+                if *r { let (tx, rx) = mpsc::channel(64); sys.tr[*t].register_rtcp_listener(tx); sys.rl[*t] = Some(rx); }
+                if *o { sys.tr[*t].add_observer(sys.obs[*t].clone()); }
+                text = format!("fl,{t},{},{},{}", *l as u8, *r as u8, *o as u8);
+            }
             Op::SendRtp(t) => {
                 sys.seq = sys.seq.wrapping_add(1); sys.n += 1;
                 ret = Some(sys.tr[*t].send_rtp(local_rtp(*t, sys.seq, sys.n)).await.is_ok());
@@ -338,12 +377,15 @@ pub async fn exec(net: &Net, cfg: &Cfg, ops: &[Op]) -> (Outcome, Vec<String>) {
                 let (bytes, wt) = match w {
                     Wire::Clear => (plain, "c".to_string()),
                     Wire::Garbage => (vec![0x80, AUDIO_PT, 0], "g".to_string()),
-                    Wire::Prot(k, ok) => {
+                    Wire::Prot(k, ok, shape) => {
                         let ctx = sys.enc.entry(*k).or_insert_with(|| ref_ctx(*k, 1));
                         let mut b = ctx.encrypt_rtp(&plain).unwrap().to_vec();
-                        if !*ok { let l = b.len(); b[l - 1] ^= 0x01; }
+                        let mut letter = 'o';
+                        if *ok {
+                            if installed[*t] == Some(*k) && !broken(*k) { last_good.insert((*t, false), (*k, b.clone(), generation[*t])); }
+                        } else { let (fb, l) = forge(&b, *shape, false, last_good.get(&(*t, false)), *k, generation[*t]); b = fb; letter = l; }
                         let as_clear = RtpPacket::parse(&b).is_ok();
-                        (b, format!("{}{}", match (ok, as_clear) { (true, true) => 'o', (false, true) => 'b', (true, false) => 'O', (false, false) => 'B' }, k))
+                        (b, format!("{}{}", if as_clear { letter } else { letter.to_ascii_uppercase() }, k))
                     }
                 };
                 inj = Some((*t, w.clone(), payload));
@@ -357,12 +399,15 @@ pub async fn exec(net: &Net, cfg: &Cfg, ops: &[Op]) -> (Outcome, Vec<String>) {
                 let (bytes, wt) = match w {
                     Wire::Clear => (plain, "c".to_string()),
                     Wire::Garbage => (vec![0x40, 201, 0, 0], "g".to_string()),
-                    Wire::Prot(k, ok) => {
+                    Wire::Prot(k, ok, shape) => {
                         let ctx = sys.enc.entry(*k).or_insert_with(|| ref_ctx(*k, 1));
                         let mut b = ctx.encrypt_rtcp(&plain).unwrap().to_vec();
-                        if !*ok { let l = b.len(); b[l - 1] ^= 0x01; }
+                        let mut letter = 'o';
+                        if *ok {
+                            if installed[*t] == Some(*k) && !broken(*k) { last_good.insert((*t, true), (*k, b.clone(), generation[*t])); }
+                        } else { let (fb, l) = forge(&b, *shape, true, last_good.get(&(*t, true)), *k, generation[*t]); b = fb; letter = l; }
                         let as_clear = rustrtc::rtp::parse_rtcp_packets(&b, None).is_ok();
-                        (b, format!("{}{}", match (ok, as_clear) { (true, true) => 'o', (false, true) => 'b', (true, false) => 'O', (false, false) => 'B' }, k))
+                        (b, format!("{}{}", if as_clear { letter } else { letter.to_ascii_uppercase() }, k))
                     }
                 };
                 inj = Some((*t, w.clone(), vec![]));
@@ -376,7 +421,7 @@ pub async fn exec(net: &Net, cfg: &Cfg, ops: &[Op]) -> (Outcome, Vec<String>) {
         let is_send = matches!(op, Op::SendRtp(_) | Op::SendRaw(..) | Op::SendRtcp(_) | Op::SyncBye(_) | Op::Close(_));
         // provenance of a plaintext RTP payload seen somewhere after this op
         let prov_of = |payload: &[u8]| -> String {
-            match &inj { Some((_, Wire::Prot(k, true), pl)) if pl.as_slice() == payload => format!("A{k}"), _ => "U".into() }
+            match &inj { Some((_, Wire::Prot(k, true, _), pl)) if pl.as_slice() == payload => format!("A{k}"), _ => "U".into() }
         };
         // the property's own judgement: may a packet with this provenance be delivered on behalf of `t`?
         let check_in = |fails: &mut Vec<(String, String)>, t: usize, sink: &str, prov: &str| {
@@ -384,7 +429,7 @@ pub async fn exec(net: &Net, cfg: &Cfg, ops: &[Op]) -> (Outcome, Vec<String>) {
                 let good = matches!(installed[t], Some(k) if prov == format!("A{k}"));
                 if !good {
                     let wk = match &inj { Some((_, Wire::Clear, _)) => "clear", Some((_, Wire::Garbage, _)) => "garbage",
-                        Some((_, Wire::Prot(_, true), _)) => "protected-other-or-no-keys", Some((_, Wire::Prot(_, false), _)) => "forged", None => "none" };
+                        Some((_, Wire::Prot(_, true, _), _)) => "protected-other-or-no-keys", Some((_, Wire::Prot(_, false, sh), _)) => ["forged-tag", "forged-truncated", "forged-e-bit", "forged-replay"][(*sh).min(3) as usize], None => "none" };
                     fails.push((format!("in:unauthenticated-delivered:{sink}:{wk}"), format!("step {i} transport {t} prov {prov} installed {:?}", installed[t])));
                 }
             }
@@ -447,7 +492,7 @@ pub async fn exec(net: &Net, cfg: &Cfg, ops: &[Op]) -> (Outcome, Vec<String>) {
             }
             if let Some(rx) = sys.rl[t].as_mut() {
                 while let Ok(pk) = rx.try_recv() {
-                    let pr = match (&inj, &inj_rtcp) { (Some((_, Wire::Prot(k, true), _)), Some(orig)) if *orig == pk => format!("A{k}"), _ => "U".into() };
+                    let pr = match (&inj, &inj_rtcp) { (Some((_, Wire::Prot(k, true, _), _)), Some(orig)) if *orig == pk => format!("A{k}"), _ => "U".into() };
                     check_in(&mut fails, t, "rtcp-listener", &pr);
                     ev.push(format!("D{t}T{pr}"));
                 }
@@ -473,10 +518,10 @@ fn sym(k: usize) -> Op {
         3 => Op::SendRtcp(0),
         4 => Op::SyncBye(0),
         5 => Op::RecvRtp(0, Wire::Clear, false),
-        6 => Op::RecvRtp(0, Wire::Prot(0, true), false),
-        7 => Op::RecvRtp(0, Wire::Prot(10, true), false), // genuine SRTP, but under another session's keys
+        6 => Op::RecvRtp(0, Wire::Prot(0, true, 0), false),
+        7 => Op::RecvRtp(0, Wire::Prot(10, true, 0), false), // genuine SRTP, but under another session's keys
         8 => Op::RecvRtcp(0, Wire::Clear),
-        9 => Op::RecvRtcp(0, Wire::Prot(0, true)),
+        9 => Op::RecvRtcp(0, Wire::Prot(0, true, 0)),
         10 => Op::Bridge(0, 1, None),
         11 => Op::ClearBridge(0),
         12 => Op::Keys(1, 10),
@@ -486,13 +531,14 @@ fn sym(k: usize) -> Op {
 
 fn rand_op(rng: &mut Rng) -> Op {
     let t = rng.below(NT as u64) as usize;
-    let key = |rng: &mut Rng, t: usize| (10 * t as u32) + rng.below(2) as u32;
+    // mostly usable key material, sometimes (1 in 8) an unusable key set (every protect / unprotect fails)
+    let key = |rng: &mut Rng, t: usize| (10 * t as u32) + if rng.chance(1, 8) { 5 } else { rng.below(2) as u32 };
     let wire = |rng: &mut Rng, t: usize| match rng.below(10) {
         0 | 1 => Wire::Clear,
         2 => Wire::Garbage,
-        3 => Wire::Prot(*rng.pick(&KEYS), true),
-        4 => Wire::Prot(10 * t as u32 + rng.below(2) as u32, false),
-        _ => Wire::Prot(10 * t as u32 + rng.below(2) as u32, true),
+        3 => Wire::Prot(*rng.pick(&KEYS), true, 0),
+        4 | 5 => Wire::Prot(10 * t as u32 + rng.below(2) as u32, false, rng.below(4) as u8),
+        _ => Wire::Prot(10 * t as u32 + rng.below(2) as u32, true, 0),
     };
     match rng.below(20) {
         0 | 1 => Op::Keys(t, key(rng, t)),
@@ -508,6 +554,7 @@ fn rand_op(rng: &mut Rng) -> Op {
             Op::Bridge(t, g, v)
         }
         17 => Op::ClearBridge(t),
+        18 => Op::Flags(t, rng.chance(1, 2), rng.chance(1, 2), rng.chance(1, 2)),
         _ => Op::Close(t),
     }
 }
@@ -683,21 +730,23 @@ a=rtpmap:96 VP8/90000\r\na=sendrecv\r\n");
 
 async fn pc_modes(run: &mut Run) {
     use rustrtc::TransportMode;
-    for (mode, name) in [(TransportMode::WebRtc, "webrtc"), (TransportMode::Srtp, "srtp"), (TransportMode::Rtp, "rtp")] {
+    // (mode, name, shape): "pair" = two rustrtc peers (offerer + answerer), "canned" = SDES offerer against a SIP-style answer
+    for (mode, name, shape) in [(TransportMode::WebRtc, "webrtc", "pair"), (TransportMode::Srtp, "srtp", "pair"),
+                                (TransportMode::Srtp, "srtp", "canned"), (TransportMode::Rtp, "rtp", "pair")] {
         for video in [false, true] {
-            let case = format!("mode {name} {}", if video { "audio+video" } else { "audio" });
-            // (connection set-up occasionally fails for reasons outside C14 — retried, then skipped and counted)
-            let mut res = Err(());
+            let case = format!("mode {name} {shape} {}", if video { "audio+video" } else { "audio" });
+            let mut res: Result<Vec<bool>, String> = Err("not run".into());
             for _attempt in 0..4 {
-                let fut = async { if name == "srtp" { answer_sdes_offer(video).await } else { connect_pair(mode.clone(), video).await } };
+                let fut = async { if shape == "canned" { answer_sdes_offer(video).await } else { connect_pair(mode.clone(), video).await } };
                 match tokio::time::timeout(std::time::Duration::from_secs(30), fut).await {
-                    Ok(Ok(f)) => { res = Ok(Ok(f)); break; }
-                    Ok(Err(e)) => { run.count("pc_connect_attempt_failed"); res = Ok(Err(e)); }
-                    Err(_) => { run.count("pc_connect_attempt_timeout"); res = Err(()); }
+                    Ok(Ok(f)) if !f.is_empty() => { res = Ok(f); break; }
+                    Ok(Ok(_)) => { run.count("pc_connect_attempt_no_transport"); res = Err("connected but no RtpTransport was created".into()); }
+                    Ok(Err(e)) => { run.count("pc_connect_attempt_failed"); res = Err(e.to_string()); }
+                    Err(_) => { run.count("pc_connect_attempt_timeout"); res = Err("timeout".into()); }
                 }
             }
             match res {
-                Ok(Ok(flags)) if !flags.is_empty() => {
+                Ok(flags) => {
                     let mut d: Vec<u8> = flags.iter().map(|f| *f as u8).collect();
                     d.sort(); d.dedup();
                     run.case("mode", name, &d.iter().map(|x| x.to_string()).collect::<String>(), true);
@@ -706,9 +755,8 @@ async fn pc_modes(run: &mut Run) {
                         run.fail(&format!("mode:non-mandatory-transport-in-{name}-mode"), &case, &format!("srtp_required flags of the transports held/attached: {flags:?}"));
                     }
                 }
-                Ok(Ok(_)) => run.count("pc_no_transport_created"),
-                Ok(Err(e)) => { run.count("pc_connect_failed"); run.notes.insert(format!("pc_connect_error_{name}_{}", video as u8), serde_json::json!(e.to_string())); }
-                Err(()) => run.count("pc_connect_timeout"),
+                // the only tie of the per-mode transport table must not disappear silently
+                Err(e) => run.fail(&format!("mode:not-checked:{name}:{shape}"), &case, &format!("4 connection attempts failed, last: {e}")),
             }
         }
     }
@@ -777,8 +825,11 @@ pub fn parse_case(s: &str) -> (Cfg, Vec<Op>) {
     }
     let wire = |w: &str| match &w[..1] {
         "c" => Wire::Clear, "g" => Wire::Garbage,
-        "o" | "O" => Wire::Prot(w[1..].parse().unwrap(), true),
-        _ => Wire::Prot(w[1..].parse().unwrap(), false),
+        "o" | "O" => Wire::Prot(w[1..].parse().unwrap(), true, 0),
+        "t" | "T" => Wire::Prot(w[1..].parse().unwrap(), false, 1),
+        "e" | "E" => Wire::Prot(w[1..].parse().unwrap(), false, 2),
+        "y" | "Y" => Wire::Prot(w[1..].parse().unwrap(), false, 3),
+        _ => Wire::Prot(w[1..].parse().unwrap(), false, 0),
     };
     let mut ops = vec![];
     for t in it {
@@ -790,6 +841,7 @@ pub fn parse_case(s: &str) -> (Cfg, Vec<Op>) {
             "rr" => Op::RecvRtp(n(1), wire(f[2]), f[3] == "1"), "rc" => Op::RecvRtcp(n(1), wire(f[2])),
             "br" => Op::Bridge(n(1), n(2), if f[3] == "-" { None } else { Some(n(3)) }),
             "bc" => Op::ClearBridge(n(1)), "cl" => Op::Close(n(1)),
+            "fl" => Op::Flags(n(1), f[2] == "1", f[3] == "1", f[4] == "1"),
             x => panic!("bad op {x}"),
         });
     }
